@@ -68,9 +68,19 @@ def cmd_replay(hid, path):
     print(json.dumps({"status": st, "detail": detail}))
 
 
-def gen_inputs(h, n, seed, fixed):
+def gen_inputs(h, n, seed, case):
     rng = random.Random(seed)
-    doms = {k: d for k, d in h.inputs.items() if k not in fixed}
+    fixed = {}
+    doms = {}
+    for k, d in h.inputs.items():
+        if k in case:
+            kind, v = case[k]
+            if kind == "choice":
+                fixed[k] = v
+            else:
+                doms[k] = type(d)(v, d.case) if isinstance(d, api.HexStr) else type(d)(v)
+        else:
+            doms[k] = d
     # exhaustive when the product of the finite domains is small
     sizes = []
     for d in doms.values():
@@ -95,7 +105,7 @@ def gen_inputs(h, n, seed, fixed):
 def cmd_sample(hid, n, seed, fixed_json):
     hs = load_all()
     h = hs[hid]
-    fixed = {k: decode_value(v) for k, v in json.loads(fixed_json).items()}
+    fixed = json.loads(fixed_json)
     npass = nskip = 0
     fails = []
     exhaustive = False
